@@ -80,6 +80,38 @@ class Fn:
         self.spec_inserts += 1
         return self
 
+    def set_sig(self, rule, new, drop_self=False):
+        """R11: replace the generic header (type parameters / bounds / where clause) by its erased form.
+        The parameter NAMES and their order must be unchanged; this is checked."""
+        def names(sig):
+            m = re.search(r'\((.*)\)\s*(->|where|$)', sig, flags=re.S)
+            inner = sig[sig.index('(', sig.index('fn ')):]
+            inner = inner[1:match_brace(inner, 0)]
+            out, depth, cur = [], 0, ''
+            for ch in inner:
+                if ch in '(<[':
+                    depth += 1
+                elif ch in ')>]':
+                    depth -= 1
+                if ch == ',' and depth == 0:
+                    out.append(cur)
+                    cur = ''
+                else:
+                    cur += ch
+            out.append(cur)
+            return [re.sub(r'^(mut\s+)?', '', x.split(':')[0].strip().lstrip('&').strip()) for x in out if x.strip()]
+        old = self.sig
+        on = names(old)
+        if drop_self and on and on[0] == 'self':
+            if re.search(r'\bself\b', self.body):
+                raise ExtractError(f'{self.qual}: body uses self, cannot drop the receiver')
+            on = on[1:]
+        if on != names(new):
+            raise ExtractError(f"signature of {self.qual} changed: parameters {names(old)} vs contract {names(new)}")
+        self.rewrites.append((rule, old, ' '.join(new.split())))
+        self.sig = ' '.join(new.split())
+        return self
+
     def sig_rewrite(self, rule, old, new, count=1):
         return self.rewrite(rule, old, new, count, where='sig')
 
